@@ -258,6 +258,22 @@ def laws(rep, rnd, tier, pools, impl, I):
         rep.nontriv(prog)
         if out != ("val", want):
             rep.violation("input", "%s gives %s, the elements with the greatest / least key are %s" % (prog, out, want), check="minmax-key", program=prog, want=want)
+    # sorted with a key that tells apart elements that are equal under == (1 / 1.0, [1] / [1.0]): ordered by the keys, stable
+    pool2 = ["1", "1.0", "2", "2.0", "[1]", "[1.0]", "0", "0.0", "'1'", "3"]
+    keyfs2 = ["fn(x) string(x)", "fn(x) type(x)", "fn(x) [type(x) == 'decimal', x]", "fn(x) if type(x) == 'decimal' then 100 else 0", "fn(x) length(string(x))"]
+    for _ in range(200 if tier != "thorough" else 2000):
+        items = [rnd.choice(pool2) for _ in range(rnd.randint(2, 6))]
+        ks = rnd.choice(keyfs2)
+        lst = "[" + ", ".join(items) + "]"
+        # the keys, one element at a time, through the interpreter; then: the result is the stable arrangement of the indices by key
+        prog = ("def l = %s; def k = %s; def ks = [k(x) for x in l]; def r = sorted(l, key = k); def kr = [k(x) for x in r]; "
+                "def ordered = TRUE; for i in range(length(kr) - 1) do if kr[i + 1] < kr[i] then ordered = FALSE end; "
+                "def idx = sorted(range(length(l)), key = fn(i) [ks[i], i]); [ordered, [string(x) for x in r] == [string(l[i]) for i in idx]]") % (lst, ks)
+        out = impl.run_src(I, prog)
+        n += 1
+        rep.nontriv(prog)
+        if out != ("val", "(list (b 1) (b 1))"):
+            rep.violation("input", "%s gives %s: sorted with a key is not the stable arrangement by key" % (prog, out[:2]), check="sorted-key-kinds", program=prog, want="(list (b 1) (b 1))")
     # NaN (recorded finding C07-F3: a NaN decimal is neither less than, equal to nor greater than a number)
     prog = "def n = decimal('nan'); [n < 1 or n == 1 or 1 < n, n > 1 and 1 > n]"
     out = impl.run_src(I, prog)
